@@ -29,6 +29,27 @@
 
 namespace {
 
+// Reads a ruleset-level delay/timeout: a non-negative whole number of seconds.
+// Anything else is logged and reported as nullopt (std::stoi would throw).
+std::optional<int> parseSeconds(const char* field, const std::string& str) {
+  int val = 0;
+  size_t pos = 0;
+  try {
+    val = std::stoi(str, &pos);
+  } catch (const std::exception&) {
+    pos = std::string::npos;
+  }
+  if (pos != str.size()) {
+    OLOG << "Ruleset " << field << " is not a number: " << str;
+    return std::nullopt;
+  }
+  if (val < 0) {
+    OLOG << "Ruleset " << field << " must be non-negative";
+    return std::nullopt;
+  }
+  return val;
+}
+
 template <typename T, typename PluginT>
 std::unique_ptr<PluginT> compilePluginGeneric(
     Oomd::PluginRegistry<PluginT>& registry,
@@ -144,20 +165,21 @@ std::unique_ptr<Oomd::Engine::Ruleset> compileRuleset(
 
   // post_action_delay field is optional
   if (ruleset.post_action_delay.size()) {
-    post_action_delay = std::stoi(ruleset.post_action_delay);
-    if (post_action_delay < 0) {
-      OLOG << "Ruleset post_action_delay must be non-negative";
+    auto parsed = parseSeconds("post_action_delay", ruleset.post_action_delay);
+    if (!parsed) {
       return nullptr;
     }
+    post_action_delay = *parsed;
   }
 
   // prekill_hook_timeout field is optional
   if (ruleset.prekill_hook_timeout.size()) {
-    prekill_hook_timeout = std::stoi(ruleset.prekill_hook_timeout);
-    if (prekill_hook_timeout < 0) {
-      OLOG << "Ruleset prekill_hook_timeout must be non-negative";
+    auto parsed =
+        parseSeconds("prekill_hook_timeout", ruleset.prekill_hook_timeout);
+    if (!parsed) {
       return nullptr;
     }
+    prekill_hook_timeout = *parsed;
   }
 
   for (const auto& dg : ruleset.dgs) {
